@@ -193,6 +193,15 @@ pub fn build_cases(cfg: &Cfg) -> Vec<Case> {
         }
         // whole group
         cases.push(Case { subgens: (1..=n as i64).map(|x| vec![x]).collect(), ..base.clone() });
+        // degenerate but legal inputs: a generating word that is empty (the identity), an empty relator
+        if finite.is_some() {
+            cases.push(Case { name: format!("{} + empty subgroup generator", g.name), subgens: vec![vec![], vec![1]], ..base.clone() });
+            cases.push(Case { name: format!("{} + only an empty subgroup generator", g.name), subgens: vec![vec![]], ..base.clone() });
+            let mut p2 = g.pres.clone();
+            p2.rels.insert(0, vec![]);
+            p2.rels.push(vec![1, -1]);
+            cases.push(Case { name: format!("{} + empty relators", g.name), pres: p2, subgens: vec![], known_order: g.order });
+        }
         let words = words_upto(n, 3);
         if finite.is_some() {
             // all one-generator subgroups, sampled two-generator subgroups
@@ -256,7 +265,7 @@ pub fn run(cfg: &Cfg) -> Report {
     report.absorb(ctx);
     report.rule = "presentations with independently known orders (cyclic, abelian, dihedral, Q8, polyhedral and Coxeter groups A3 B3 H3 A4 B4 F4, deliberately redundant and coincidence-heavy presentations of small groups) and infinite groups (free, Z^2, Z^3, surface, triangle, wallpaper); subgroups: trivial, whole group, every word of length <= 3 as a single generator, sampled pairs and long random words, and Schreier generators of the stabilisers of all low-index actions found by the oracle (finite index in infinite groups, mostly non-normal); fundamental groups of spherical 2D symbols in three presentations incl. the redundant textbook one. Non-trivial = subgroup that is neither trivial, nor the whole group, nor normal; distinct = distinct (relators, subgroup generators) digests".into();
     report.explanation = "index from the harness's own HLT Todd-Coxeter with complete coincidence processing (and the literature order for the trivial subgroup); the returned table is re-read through len/get and checked for: complete, mutually inverse permutations, transitive, every relator fixes every row, every subgroup generator fixes row 0, row count = index; representatives traced from row 0".into();
-    report.assume("the library is only called when the oracle has established a finite index <= 3000; empty subgroup generator words are not used");
+    report.assume("the library is only called when the oracle has established a finite index <= 3000");
     report.require_counter("enumerations_judged", 500);
     report.require_counter("non_normal_subgroups", 200);
     report.require_hook("cosets.coincidence", 1);
